@@ -35,9 +35,10 @@ U = ('U',)
 
 class AV:
     """abstract value"""
-    __slots__ = ('types', 'origins', 'const', 'callee')
+    __slots__ = ('types', 'origins', 'const', 'callee', 'deps')
 
-    def __init__(self, types: Types = EMPTY, origins=frozenset(), const=NOCONST, callee=None):
+    def __init__(self, types: Types = EMPTY, origins=frozenset(), const=NOCONST, callee=None, deps=frozenset()):
+        self.deps = deps  # names of the parameters this value is data/control dependent on (syntactic slice)
         if types and ty.maybe_mutable(types) is False:
             origins = frozenset()
         elif types and origins and ty.shallow_immutable(types):
@@ -57,6 +58,7 @@ class AV:
         types = self.types | other.types if (self.types and other.types) else EMPTY
         av = AV.__new__(AV)
         av.types = types
+        av.deps = self.deps | other.deps
         av.origins = self.origins | other.origins
         if types and ty.maybe_mutable(types) is False:
             av.origins = frozenset()
@@ -74,8 +76,16 @@ class AV:
                     av.callee.append(c)
         return av
 
+    def with_deps(self, deps) -> 'AV':
+        if deps == self.deps:
+            return self
+        av = AV.__new__(AV)
+        av.types, av.origins, av.const, av.callee, av.deps = self.types, self.origins, self.const, self.callee, deps
+        return av
+
     def __eq__(self, other):
         return isinstance(other, AV) and self.types == other.types and self.origins == other.origins and \
+            self.deps == other.deps and \
             ((self.const is NOCONST and other.const is NOCONST) or
              (self.const is not NOCONST and other.const is not NOCONST and self.const == other.const))
 
@@ -246,6 +256,7 @@ class Analyzer:
         self.calls: Dict[Tuple[str, tuple], List[CallRecord]] = {}
         self.events: Dict[Tuple[str, tuple], list] = {}
         self.ret_records: Dict[Tuple[str, tuple], list] = {}
+        self.acc_records: Dict[Tuple[str, tuple], list] = {}
         self.passes = 0
         self._param_types_cache = {}
         self._methods_by_name: Dict[str, List[FuncInfo]] = {}
@@ -287,6 +298,7 @@ class Analyzer:
                 self.calls[key] = run.call_records
                 self.events[key] = run.events
                 self.ret_records[key] = run.ret_records
+                self.acc_records[key] = run.acc_records
                 if s.signature() != oldsig:
                     changed = True
             if self._attr_changed:
@@ -350,13 +362,14 @@ class Analyzer:
 
 
 class Env:
-    __slots__ = ('vars',)
+    __slots__ = ('vars', 'pdeps')
 
-    def __init__(self, vars=None):
+    def __init__(self, vars=None, pdeps=frozenset()):
         self.vars: Dict[str, AV] = vars if vars is not None else {}
+        self.pdeps = pdeps  # parameters the current program point is control dependent on
 
     def copy(self):
-        return Env(dict(self.vars))
+        return Env(dict(self.vars), self.pdeps)
 
     def get(self, k):
         return self.vars.get(k)
@@ -379,13 +392,13 @@ def join_env(a: Optional[Env], b: Optional[Env]) -> Optional[Env]:
             out[k] = va
         else:
             out[k] = va.join(vb)
-    return Env(out)
+    return Env(out, a.pdeps | b.pdeps)
 
 
 def env_eq(a: Optional[Env], b: Optional[Env]) -> bool:
     if a is None or b is None:
         return a is b
-    if a.vars.keys() != b.vars.keys():
+    if a.vars.keys() != b.vars.keys() or a.pdeps != b.pdeps:
         return False
     return all(a.vars[k] == b.vars[k] for k in a.vars)
 
@@ -406,11 +419,13 @@ class FuncRun:
         self.yields: List[AV] = []
         self.call_records: List[CallRecord] = []
         self.ret_records: list = []  # (node, AV) for each return/yield
+        self.acc_records: list = []  # (stmt, value deps, control deps) for accumulating stores
         self.loop_breaks: List[List[Optional[Env]]] = []
         self.loop_continues: List[List[Optional[Env]]] = []
         self.param_index = {p.name: p.index for p in f.params}
         self._site_counter = 0
         self._sites: Dict[int, tuple] = {}
+        self._dep_stack: List[set] = []
 
     # ---------------------------------------------------------------- helpers
     def site(self, node, tag: str = '') -> tuple:
@@ -441,6 +456,7 @@ class FuncRun:
         av.types = types
         av.const = NOCONST
         av.callee = None
+        av.deps = frozenset()
         av.origins = frozenset() if (types and ty.maybe_mutable(types) is False) else frozenset([k])
         return av
 
@@ -585,9 +601,9 @@ class FuncRun:
             if p.name in self.spec:
                 const = self.spec[p.name]
                 t = T(ty.BOOL)
-            av = AV(t, [P(p.index)], const)
+            av = AV(t, [P(p.index)], const, deps=frozenset([p.name]))
             if p.default is not None and isinstance(p.default, (ast.List, ast.Dict, ast.Set)):
-                av = av.join(AV(t, [G(f'default:{f.fq}:{p.name}')]))
+                av = av.join(AV(t, [G(f'default:{f.fq}:{p.name}')], deps=frozenset([p.name])))
             env.set(p.name, av)
         out = self.block(f.node.body, env)
         if out is not None and not f.is_generator:
@@ -734,6 +750,7 @@ class FuncRun:
 
     def st_Return(self, st, env):
         av = self.ev(st.value, env) if st.value is not None else const_av(None)
+        av = av.with_deps(av.deps | env.pdeps)
         self.returns.append(av)
         self.ret_records.append((st, av, 'return'))
         return None
@@ -773,28 +790,34 @@ class FuncRun:
 
     def st_AugAssign(self, st, env):
         val = self.ev(st.value, env)
+        self.acc_records.append((st, val.deps, env.pdeps))
         t = st.target
         if isinstance(t, ast.Name):
             cur = env.get(t.id) or self.ev(t, env)
             if any(x[0] in ('list', 'set', 'dict', 'counter') for x in cur.types):
                 # in-place update of a container object
                 self.store_into(cur, AV(EMPTY, self.interior(val)), st, 'augmented assignment on container')
+                env.set(t.id, cur.with_deps(cur.deps | val.deps | env.pdeps))
                 return env
             env.set(t.id, AV(cur.types if cur.types and ty.maybe_mutable(cur.types) is False else EMPTY,
-                             cur.origins | self.interior(val)))
+                             cur.origins | self.interior(val), deps=cur.deps | val.deps | env.pdeps))
             return env
         if isinstance(t, ast.Subscript):
             recv = self.ev(t.value, env)
-            self.ev(t.slice, env)
+            k = self.ev(t.slice, env)
             self.store_into(recv, val, st, 'augmented item assignment')
+            self.taint_root(t.value, val.deps | k.deps, env)
             return env
         if isinstance(t, ast.Attribute):
             recv = self.ev(t.value, env)
             self.attr_store(recv, t.attr, val, st, env)
+            self.taint_root(t.value, val.deps, env)
             return env
         return env
 
     def assign(self, target, val: AV, env: Env, st, value_expr=None):
+        if env.pdeps - val.deps:
+            val = val.with_deps(val.deps | env.pdeps)
         if isinstance(target, ast.Name):
             env.set(target.id, val)
         elif isinstance(target, (ast.Tuple, ast.List)):
@@ -808,18 +831,33 @@ class FuncRun:
                 et = ty.value_types(val.types) or ty.elem_types(val.types)
                 for i, tt in enumerate(target.elts):
                     if isinstance(tt, ast.Starred):
-                        self.assign(tt.value, AV(T(('list', et)), self.interior(val)), env, st)
+                        self.assign(tt.value, AV(T(('list', et)), self.interior(val), deps=val.deps), env, st)
                     else:
-                        self.assign(tt, AV(self.tuple_elem_type(val, i, len(target.elts)), self.interior(val)), env, st)
+                        self.assign(tt, AV(self.tuple_elem_type(val, i, len(target.elts)), self.interior(val),
+                                           deps=val.deps), env, st)
         elif isinstance(target, ast.Attribute):
             recv = self.ev(target.value, env)
             self.attr_store(recv, target.attr, val, st, env)
+            self.taint_root(target.value, val.deps, env)
         elif isinstance(target, ast.Subscript):
             recv = self.ev(target.value, env)
-            self.ev(target.slice, env)
+            k = self.ev(target.slice, env)
             self.store_into(recv, val, st, 'item assignment')
+            self.acc_records.append((st, val.deps | k.deps, env.pdeps))
+            self.taint_root(target.value, val.deps | k.deps, env)
         elif isinstance(target, ast.Starred):
             self.assign(target.value, val, env, st)
+
+    def taint_root(self, expr, deps, env: Env):
+        """a store through `expr` makes the variable at its root depend on `deps`"""
+        while isinstance(expr, (ast.Attribute, ast.Subscript)):
+            expr = expr.value
+        if isinstance(expr, ast.Name):
+            cur = env.get(expr.id)
+            if cur is not None:
+                nd = cur.deps | deps | env.pdeps
+                if nd != cur.deps:
+                    env.set(expr.id, cur.with_deps(nd))
 
     def tuple_elem_type(self, val: AV, i: int, n: int) -> Types:
         # tuple types carry only the union of their element types: usable only when homogeneous
@@ -876,9 +914,19 @@ class FuncRun:
             return self.block(st.body, te)
         if dec is False:
             return self.block(st.orelse, fe)
+        pre = env.pdeps
+        if te is fe or te is env:
+            te = te.copy()
+        if fe is env:
+            fe = fe.copy()
+        te.pdeps = pre | c.deps
+        fe.pdeps = pre | c.deps
         a = self.block(st.body, te)
         b = self.block(st.orelse, fe)
-        return join_env(a, b)
+        res = join_env(a, b)
+        if res is not None and a is not None and b is not None:
+            res.pdeps = pre  # both branches continue: control dependence ends at the join
+        return res
 
     def truth(self, av: AV):
         if av.const is NOCONST:
@@ -892,10 +940,14 @@ class FuncRun:
         self.loop_breaks.append([])
         self.loop_continues.append([])
         cur = env
+        pre_pdeps = env.pdeps
         for _ in range(4):
-            self.ev(st.test, cur)
+            tv = self.ev(st.test, cur)
             te, fe = self.narrow(st.test, cur)
-            out = self.block(st.body, te.copy() if te else None)
+            body_env = te.copy() if te else None
+            if body_env is not None:
+                body_env.pdeps = pre_pdeps | tv.deps
+            out = self.block(st.body, body_env)
             for c in self.loop_continues[-1]:
                 out = join_env(out, c)
             self.loop_continues[-1] = []
@@ -913,6 +965,9 @@ class FuncRun:
         self.loop_continues.pop()
         if st.orelse:
             res = self.block(st.orelse, res)
+        if res is not None:
+            res = res.copy()
+            res.pdeps = pre_pdeps
         return res
 
     def st_For(self, st, env):
@@ -921,9 +976,11 @@ class FuncRun:
         self.loop_breaks.append([])
         self.loop_continues.append([])
         cur = env
+        pre_pdeps = env.pdeps
         for _ in range(4):
             body_env = cur.copy()
-            self.bind_target(st.target, elem, body_env, st, st.iter)
+            body_env.pdeps = pre_pdeps | it.deps
+            self.bind_target(st.target, elem.with_deps(elem.deps | it.deps), body_env, st, st.iter)
             out = self.block(st.body, body_env)
             for c in self.loop_continues[-1]:
                 out = join_env(out, c)
@@ -939,6 +996,9 @@ class FuncRun:
             res = self.block(st.orelse, res)
         for b in brk:
             res = join_env(res, b)
+        if res is not None:
+            res = res.copy()
+            res.pdeps = pre_pdeps
         return res
 
     st_AsyncFor = st_For
@@ -949,7 +1009,7 @@ class FuncRun:
 
     def bind_target(self, target, elem: AV, env: Env, st, iter_expr=None):
         if isinstance(target, ast.Name):
-            env.set(target.id, elem)
+            env.set(target.id, elem.with_deps(elem.deps | env.pdeps))
             return
         if isinstance(target, (ast.Tuple, ast.List)):
             # element of items()/enumerate()/zip(): distribute interior
@@ -965,9 +1025,10 @@ class FuncRun:
                 inner_t = tt.value if isinstance(tt, ast.Starred) else tt
                 if special is not None:
                     # items()/enumerate()/zip(): the pair itself is not materialised, its fields are the values
-                    self.bind_target(inner_t, AV(tt_types, elem.origins), env, st)
+                    self.bind_target(inner_t, AV(tt_types, elem.origins, deps=elem.deps), env, st)
                 else:
-                    self.bind_target(inner_t, AV(tt_types, elem.origins | self.interior(elem)), env, st)
+                    self.bind_target(inner_t, AV(tt_types, elem.origins | self.interior(elem), deps=elem.deps),
+                                     env, st)
             return
         if isinstance(target, ast.Starred):
             self.bind_target(target.value, elem, env, st)
@@ -1111,14 +1172,15 @@ class FuncRun:
                     yes = frozenset((w if len(w) > 1 or w[0] not in ('list', 'set', 'tuple', 'dict') else
                                      ((w[0], EMPTY) if w[0] != 'dict' else ('dict', EMPTY, EMPTY))) for w in want)
                 te, fe = env.copy(), env.copy()
-                te.set(name, AV(yes, cur.origins, cur.const))
-                fe.set(name, AV(no, cur.origins, cur.const) if no else AV(EMPTY, cur.origins, cur.const))
+                te.set(name, AV(yes, cur.origins, cur.const, deps=cur.deps))
+                fe.set(name, AV(no, cur.origins, cur.const, deps=cur.deps) if no else
+                       AV(EMPTY, cur.origins, cur.const, deps=cur.deps))
                 return te, fe
             else:
                 te = env.copy()
                 yes = frozenset((w if len(w) > 1 or w[0] not in ('list', 'set', 'tuple', 'dict') else
                                  ((w[0], EMPTY) if w[0] != 'dict' else ('dict', EMPTY, EMPTY))) for w in want)
-                te.set(name, AV(yes, cur.origins, cur.const))
+                te.set(name, AV(yes, cur.origins, cur.const, deps=cur.deps))
                 return te, env
         if isinstance(test, ast.Compare) and len(test.ops) == 1 and isinstance(test.left, ast.Name):
             name = test.left.id
@@ -1128,16 +1190,18 @@ class FuncRun:
                     isinstance(test.ops[0], (ast.Is, ast.IsNot, ast.Eq, ast.NotEq)):
                 is_none = isinstance(test.ops[0], (ast.Is, ast.Eq))
                 none_env, some_env = env.copy(), env.copy()
-                none_env.set(name, const_av(None))
+                none_env.set(name, const_av(None).with_deps(cur.deps))
                 if cur.types:
                     rest = frozenset(t for t in cur.types if t != ty.NONE)
-                    some_env.set(name, AV(rest, cur.origins, cur.const if cur.const is not None else NOCONST))
+                    some_env.set(name, AV(rest, cur.origins, cur.const if cur.const is not None else NOCONST,
+                                          deps=cur.deps))
                 return (none_env, some_env) if is_none else (some_env, none_env)
         if isinstance(test, ast.Name):
             cur = env.get(test.id)
             if cur is not None and cur.types and ty.NONE in cur.types:
                 te = env.copy()
-                te.set(test.id, AV(frozenset(t for t in cur.types if t != ty.NONE), cur.origins, cur.const))
+                te.set(test.id, AV(frozenset(t for t in cur.types if t != ty.NONE), cur.origins, cur.const,
+                                   deps=cur.deps))
                 return te, env
         return env, env
 
@@ -1175,13 +1239,21 @@ class FuncRun:
     def ev(self, e, env: Env) -> AV:
         if e is None:
             return const_av(None)
-        m = getattr(self, 'ex_' + type(e).__name__, None)
-        if m is None:
-            for ch in ast.iter_child_nodes(e):
-                if isinstance(ch, ast.expr):
-                    self.ev(ch, env)
-            return UNKNOWN
-        return m(e, env)
+        self._dep_stack.append(set())
+        try:
+            m = getattr(self, 'ex_' + type(e).__name__, None)
+            if m is None:
+                for ch in ast.iter_child_nodes(e):
+                    if isinstance(ch, ast.expr):
+                        self.ev(ch, env)
+                r = UNKNOWN
+            else:
+                r = m(e, env)
+        finally:
+            d = self._dep_stack.pop()
+        if self._dep_stack:
+            self._dep_stack[-1] |= d
+        return r.with_deps(frozenset(d))
 
     def ex_Constant(self, e, env):
         return const_av(e.value)
@@ -1189,6 +1261,8 @@ class FuncRun:
     def ex_Name(self, e, env):
         v = env.get(e.id)
         if v is not None:
+            if self._dep_stack:
+                self._dep_stack[-1] |= v.deps
             return v
         return self.global_name(e.id)
 
@@ -1242,6 +1316,9 @@ class FuncRun:
 
     def ex_Attribute(self, e, env):
         recv = self.ev(e.value, env)
+        if self._dep_stack and any(o[0] in ('P', 'I') for o in recv.origins):
+            # field-read tag: lets the field-coverage rules ask "does this value depend on field X of an argument"
+            self._dep_stack[-1].add('@' + e.attr.lstrip('_'))
         return self.attr_load(recv, e.attr, e, env)
 
     def attr_load(self, recv: AV, attr: str, node, env) -> AV:
@@ -1533,6 +1610,7 @@ class FuncRun:
 
     def ex_Yield(self, e, env):
         v = self.ev(e.value, env) if e.value is not None else const_av(None)
+        v = v.with_deps(v.deps | env.pdeps)
         self.yields.append(v)
         self.ret_records.append((e, v, 'yield'))
         return UNKNOWN
@@ -1573,6 +1651,12 @@ class FuncRun:
             if r is None:
                 continue
             res = r if res is None else res.join(r)
+        if isinstance(fn, ast.Attribute) and (fn.attr in LIST_MUTATORS or fn.attr in DICT_MUTATORS or
+                                              fn.attr in SET_MUTATORS or fn.attr.startswith('add_')):
+            d = set()
+            for a in list(args) + list(kwargs.values()):
+                d |= a.deps
+            self.taint_root(fn.value, frozenset(d), env)
         return res if res is not None else AV(EMPTY, [U])
 
     def call_one(self, c, e, args, kwargs, has_star, star_kwargs, env, text) -> Optional[AV]:
